@@ -123,6 +123,8 @@ type maxInflightWrapper struct {
 	serverUnavailable uint32
 	max               int32
 	reserve           int32
+	// current size of the wrapped limiter
+	size int32
 
 	acquiredMaxInflight int32
 	overLimited         int32
@@ -193,7 +195,7 @@ func (m *maxInflightWrapper) SetLimit(acquireResult *AcquireResult) bool {
 			}
 			klog.V(2).Infof("[global maxInflight] cluster=%q resize flowcontrol=%s max=%v for error: %v",
 				m.fcc.cluster, m.fcc.name, inflight, result.Error)
-			m.FlowControl.Resize(uint32(inflight), 0)
+			m.resize(inflight)
 			atomic.StoreUint32(&m.serverUnavailable, 1)
 		}
 		m.lock.Unlock()
@@ -216,7 +218,7 @@ func (m *maxInflightWrapper) SetLimit(acquireResult *AcquireResult) bool {
 		}
 		atomic.StoreInt32(&m.overLimited, 0)
 		atomic.StoreInt32(&m.acquiredMaxInflight, limit)
-		m.FlowControl.Resize(uint32(limit), 0)
+		m.resize(limit)
 	} else {
 		// the server may answer anything: never below zero, never beyond the global limit
 		limit := result.Limit
@@ -228,7 +230,7 @@ func (m *maxInflightWrapper) SetLimit(acquireResult *AcquireResult) bool {
 		}
 		atomic.StoreInt32(&m.overLimited, 1)
 		atomic.StoreInt32(&m.acquiredMaxInflight, limit)
-		m.FlowControl.Resize(uint32(limit), 0)
+		m.resize(limit)
 	}
 
 	atomic.StoreInt64(&m.lastAcquireTime, acquireResult.requestTime)
@@ -248,9 +250,20 @@ func (m *maxInflightWrapper) Resize(max uint32, burst uint32) bool {
 	m.max = int32(max)
 
 	if atomic.LoadUint32(&m.serverUnavailable) == 0 {
-		return m.FlowControl.Resize(uint32(m.reserve), 0)
+		return m.resize(m.reserve)
+	}
+	// the server is unavailable: the limiter keeps the size it fell back to,
+	// but a lowered global limit bounds that size as well
+	if m.size > m.max {
+		return m.resize(m.max)
 	}
 	return true
+}
+
+// resize sets the size of the wrapped limiter; the caller holds m.lock.
+func (m *maxInflightWrapper) resize(n int32) bool {
+	m.size = n
+	return m.FlowControl.Resize(uint32(n), 0)
 }
 
 func (m *maxInflightWrapper) TryAcquire() bool {
@@ -322,6 +335,8 @@ type tokenBucketWrapper struct {
 	reserve           int32
 	tokenBatch        int32
 	tokenInflight     int32
+	// qps the limiter fell back to when the server became unavailable
+	fallback uint32
 
 	qps   uint32
 	burst uint32
@@ -407,6 +422,7 @@ func (m *tokenBucketWrapper) SetLimit(acquireResult *AcquireResult) bool {
 				m.fcc.cluster, m.fcc.name, lastQPS, acquireResult.requestTime, result.Error)
 
 			m.FlowControl.Resize(uint32(lastQPS), uint32(lastQPS))
+			m.fallback = uint32(lastQPS)
 			atomic.StoreUint32(&m.serverUnavailable, 1)
 		}
 		m.lock.Unlock()
@@ -459,6 +475,12 @@ func (m *tokenBucketWrapper) Resize(qps uint32, burst uint32) bool {
 	m.burst = qps
 	if atomic.LoadUint32(&m.serverUnavailable) == 0 {
 		return m.FlowControl.Resize(qps, burst)
+	}
+	// the server is unavailable: the limiter keeps the rate it fell back to,
+	// but a lowered global limit bounds that rate as well
+	if m.fallback > qps {
+		m.fallback = qps
+		return m.FlowControl.Resize(m.fallback, m.fallback)
 	}
 	return false
 }
